@@ -331,6 +331,12 @@ def run_case(key, tier, res, only_plan=None):
     if pb is None:
         res.count("rejected_at_build")
         return
+    # a problem whose initial state violates a bounded type or a state invariant is not a legal problem (the simulator and the
+    # validator reject it with the documented UPProblemDefinitionError): "valid plan" is meaningless there (same rule as C03)
+    rs0 = seqsem.initial_state(pb)
+    if not seqsem.bounds_ok(pb, rs0)[0] or (pb.state_invariants and seqsem.invariants_status(pb, rs0) is not True):
+        res.count("rejected_initial_state_illegal_or_dontcare")
+        return
     space = Space(pb)
     if not space.insts or len(space.insts) > 40:
         res.count("skipped_no_or_too_many_instances")
